@@ -86,6 +86,18 @@ func TestC01(t *testing.T) {
 		return svc
 	}
 
+	// saved inputs: relayed through the first instance, judged on the wire level
+	V.Regress(t, func(c regressCase) string {
+		if c.S("kind") != "relay" {
+			return "skip: kind " + c.S("kind")
+		}
+		in, got, fail := svc.regressRelay(c)
+		if fail != "" || len(got) == 0 {
+			return fail
+		}
+		return checkContentR(in, got[0].msg)
+	})
+
 	rcheck(t, "requests", V.N(2500, 20000), func(rt *rapid.T) {
 		s := pick(rt)
 		rc := s.gRelayRequest(rt, relayOpts{Paths: []string{"backend", "route", "static"}, MaxVias: 4, MaxRRs: 2, MaxExt: 40, MaxLong: 16384, MaxBody: 60000})
